@@ -215,6 +215,11 @@ def routines():
     from dulwich.repo import Repo
 
     def refs(p):
+        if _st.get("shared_mode"):
+            # through the repository, so that core.sharedRepository reaches the lock files (chmod before the rename)
+            r = Repo(p)
+            _st.setdefault("open_repos", []).append(r)
+            return r.refs
         return DiskRefsContainer(os.path.join(p, ".git"))
 
     def r_index_write(p, ids):
@@ -350,6 +355,11 @@ def run_one(root, routine, ids, fault_at=None, fault_kind=None):
     finally:
         layer.unregister_actor()
         fsint.uninstall()
+        for r_ in _st.pop("open_repos", []):
+            try:
+                r_.close()
+            except Exception:
+                pass
     gc.collect()
     return out, layer.log, count[0]
 
@@ -365,11 +375,20 @@ def run_fault(case):
     routine = _st["routines"][name]
     ids = _st["ids"]
     viol, stats = [], {}
-    base = _st["scratch"].sub("f%s" % name)
+    shared = bool(case.get("shared"))
+    _st["shared_mode"] = shared
+    if shared and "tmpl_shared" not in _st:
+        _st["tmpl_shared"] = _st["scratch"].sub("tmpl-shared")
+        shutil.rmtree(_st["tmpl_shared"])
+        shutil.copytree(_st["tmpl"], _st["tmpl_shared"], symlinks=True)
+        core.git(["config", "core.sharedRepository", "group"], cwd=_st["tmpl_shared"])
+    base = _st["scratch"].sub("f%s%s" % (name, "-shared" if shared else ""))
+    if shared:
+        name = name + "+sharedRepository"
 
     def fresh(tag):
         d = os.path.join(base, tag)
-        shutil.copytree(_st["tmpl"], d, symlinks=True)
+        shutil.copytree(_st["tmpl_shared"] if shared else _st["tmpl"], d, symlinks=True)
         return d
     d0 = fresh("clean")
     before = tree_state(d0)
@@ -417,6 +436,13 @@ def run_fault(case):
                         viol.append({"sig": "C07/fault/%s/reported-success-but-file-not-new" % vtag, "file": f, "k": k})
                         break
             else:
+                # a write that fails leaves the old content in place: judged for routines that replace exactly one file through one lock
+                # (multi-step routines may legitimately fail after an earlier step was committed)
+                if len(lock_replaced) == 1 and len(locks_used) == 1:
+                    stats["failed_single_lock_writes_checked"] = stats.get("failed_single_lock_writes_checked", 0) + 1
+                    for f in lock_replaced:
+                        if f is not None and st.get(f) != before.get(f):
+                            viol.append({"sig": "C07/fault/%s/write-reported-failure-but-new-content-is-in-place" % vtag, "file": f, "k": k, "outcome": out})
                 # a following ordinary run of the same routine must not find the path locked
                 out2, _l, _n2 = run_one(d, routine, ids)
                 if out2 == "raised:FileLocked":
@@ -472,6 +498,8 @@ def main(ctx):
                       "bound": 2 if not ctx.thorough else 3})
     for r in ROUTINES:
         cases.append({"kind": "fault", "routine": r})
+        if r not in ("gitfile_big",):
+            cases.append({"kind": "fault", "routine": r, "shared": True})
     ctx.rule = ("schedules: all interleavings at interposed-call granularity of 2 GitFile writers (6 shapes: payload sizes below/above the buffer, "
                 "unbuffered, close/abort mixes, with/without initial file), 3 writers under preemption bound %d; faults: every call of "
                 "%d routines that write through the lock protocol x {ENOSPC, EIO, EPERM, KeyboardInterrupt}. non-trivial = distinct "
